@@ -838,11 +838,21 @@ func (r Stack) Reset() {
 reset is a private method called by [Stack.Reset].
 */
 func (r *stack) reset() {
-	var ct int = 0
-	for i := r.ulen(); i > 0; i-- {
-		ct++
-		r.remove(i - 1)
+	if r.ulen() == 0 {
+		return
 	}
+
+	cfg, _ := r.config()
+
+	r.lock()
+	defer r.unlock()
+
+	// keep only the config slice; nil slices (which
+	// cannot be addressed by index, and therefore not
+	// by remove) are discarded along with the rest.
+	var R stack = make(stack, 0)
+	R = append(R, cfg)
+	*r = R
 }
 
 /*
